@@ -1,5 +1,6 @@
 import OmplModel.Proofs.NNLinear
 import OmplModel.Proofs.NNGnat
+import OmplModel.Proofs.NNGnatExact
 import Mathlib.Algebra.Order.Ring.Int
 /-!
 C10 — nearest-neighbour structures answer exactly like exhaustive search.
@@ -105,68 +106,153 @@ theorem sqrt_size_list_abs [BEq α] [LawfulBEq α] (ops : List (Op α)) :
   rw [h]
   exact linear_size_list_abs ops
 
-/-! ## GNAT (pruning soundness under the invariant) -/
+/-! ## GNAT queries -/
 
 section Gnat
 variable [CommRing D] [LinearOrder D] [IsStrictOrderedRing D]
 
-omit [CommRing D] [IsStrictOrderedRing D] in
-/-- the invariant evaluated on the dumps holds at every node the traversal can reach. -/
-theorem gnat_inv_descends_partial (dist : α → α → D) (removed : List Nat) (t : Node α D)
-    (h : t.inv dist removed = true) :
-    isRemoved removed t.pivot = false ∧ localInv dist t.children = true ∧
-      ∀ c ∈ t.children, c.inv dist removed = true := by
-  obtain ⟨p, deg, r, rg, data, ch⟩ := t
-  have := (Node.inv_mk dist removed p deg r rg data ch).mp h
-  exact ⟨this.1, this.2.1, invL_mem dist removed ch this.2.2⟩
+/-- the state invariant of the whole structure: `GnatInv` on the tree, and `size_` is the number of
+non-removed stored copies. -/
+def Gnat.WF (dist : α → α → D) (g : Gnat α D) : Prop :=
+  match g.tree with
+  | none => g.size = 0
+  | some t => t.inv dist g.removed = true ∧ g.size = (liveOf g.removed t.elems).length
 
-/-- **Sibling pruning never discards an answer element.**  In a node satisfying the invariant, when
-the loop of `Node::nearestK` (`bound` = current k-th best distance `nbh.top().first`, reached only
-when `nbh.size() == k`) or of `Node::nearestR` (`bound` = the radius) sets `permutation[j] = -1`,
-every stored copy of the subtree of that sibling — pivot, removed copies and all — is strictly
-farther from the query than `bound`. -/
-theorem gnat_sibling_prune_sound_partial {dist : α → α → D} (hm : IsMetric dist) (removed : List Nat)
-    (t : Node α D) (hinv : t.inv dist removed = true) {child : Node α D} (hc : child ∈ t.children)
-    (q : α) (bound : D) (i : Nat) (perm : Array (PEntry D)) (j : Nat) (hj : j < perm.size)
-    {c' : Nat} {cj : Node α D} (hact : perm[j].child? = some c') (hcj : t.children[c']? = some cj)
-    (hpr : (pruneOthers child.ranges (dist q child.pivot.val) bound i perm)[j]'(by simpa using hj) = .pruned) :
-    ∀ x ∈ cj.elems, bound < dist q x.val :=
-  pruneOthers_sound hm (gnat_inv_descends_partial dist removed t hinv).2.1 hc q bound i perm j hj hact hcj hpr
+/-- every child order the two variants can use is admitted by the theorems below. -/
+theorem gnat_child_orders_are_permutations (rotate : Bool) (sz off : Nat) :
+    (childOrder rotate sz off).Perm (List.range sz) ∧ (rotation sz off).Perm (List.range sz) :=
+  ⟨childOrder_perm rotate sz off, rotation_perm sz off⟩
 
-/-- **Radius pruning never discards an answer element.**  A child that is not enqueued
-(`inside … = false`) or that is skipped when dequeued (`outsideQ … = true`) stores nothing (besides
-its pivot, already offered to the answer) within `bound` of the query. -/
-theorem gnat_radius_prune_sound_partial {dist : α → α → D} (hm : IsMetric dist) (removed : List Nat)
-    (t : Node α D) (hinv : t.inv dist removed = true) {child : Node α D} (hc : child ∈ t.children)
-    (q : α) (bound : D)
-    (hskip : inside (dist q child.pivot.val) bound child.rad = false ∨
-             outsideQ (dist q child.pivot.val) bound child.rad = true) :
-    ∀ x ∈ child.data ++ elemsL child.children, bound < dist q x.val := by
-  have hl := (gnat_inv_descends_partial dist removed t hinv).2.1
-  rcases hskip with h | h
-  · exact enqueue_skip_sound hm hl hc q bound h
-  · exact dequeue_skip_sound hm hl hc q bound h
+example : rotation 4 6 = [2, 3, 0, 1] := by decide
 
-end Gnat
+/-- **`nearestK` is exact.**  For every metric (symmetric, triangle inequality, `dist a a = 0`) on a
+linearly ordered commutative ring, every tree satisfying the executable invariant `Node.inv`
+(= `GnatInv`), every query, `k`, `eps`, and **every** child visiting order `ord` (any function giving a
+permutation of the children per node visit — the rotating `offset_` and any shuffle are instances),
+the model's `nearestK` (the code of `nearestKInternal` + `Node::nearestK` + `insertNeighborK` +
+`postprocessNearest`) returns a list of stored non-removed copies that is sorted by distance, has
+length `min k (#live)`, contains no stored copy more often than it is held (`answer ++ rest` is a
+permutation of the live copies), and leaves out only copies at least as far as every returned one;
+the distances reported with the answer are the true ones, and the traversal never runs out of fuel. -/
+theorem nearestK_exact [BEq α] [LawfulBEq α] {dist : α → α → D} (hm : IsMetric dist)
+    (hself : ∀ a, dist a a = 0) (g : Gnat α D) (hg : g.WF dist) (q : α) (k : Nat) (eps : D)
+    {ord : Nat → Nat → List Nat} (hord : ∀ sz off, (ord sz off).Perm (List.range sz)) :
+    IsKNearest (fun e => dist q e.val) k g.list ((g.nearestK dist eps ord q k).1.map Prod.snd) ∧
+    (∀ x ∈ (g.nearestK dist eps ord q k).1, x.1 = dist q x.2.val) ∧
+    (g.nearestK dist eps ord q k).2.2 = false := by
+  have hempty : ∀ l : List (Elem α), (k = 0 ∨ l.length = 0) →
+      IsKNearest (fun e => dist q e.val) k l (([] : List (D × Elem α)).map Prod.snd) := by
+    intro l h
+    refine ⟨List.Pairwise.nil, ?_, l, by simp, by simp⟩
+    rcases h with h | h <;> simp [h]
+  unfold Gnat.nearestK Gnat.list
+  unfold Gnat.WF at hg
+  by_cases hk : k = 0
+  · rw [if_pos hk]
+    exact ⟨hempty _ (Or.inl hk), by simp, rfl⟩
+  · rw [if_neg hk]
+    cases ht : g.tree with
+    | none =>
+      simp only [ht] at hg ⊢
+      rw [if_pos hg]
+      exact ⟨hempty _ (Or.inr rfl), by simp, rfl⟩
+    | some t =>
+      simp only [ht] at hg ⊢
+      by_cases hs : g.size = 0
+      · rw [if_pos hs]
+        exact ⟨hempty _ (Or.inr (by rw [← hg.2, hs])), by simp, rfl⟩
+      · rw [if_neg hs]
+        obtain ⟨h1, h2, h3⟩ := nearestKInternal_exact hm hself g.removed t hg.1 q k eps hord g.offset
+        refine ⟨h2, ?_, h1⟩
+        intro x hx
+        exact h3 x (List.mem_reverse.mp hx)
 
-/-- **Leaf level of the radius query is exact.**  The `data_` scan of `Node::nearestR` adds to the
-answer queue exactly the non-removed elements of the leaf that lie within the radius — each once,
-never one marked removed — and keeps the queue ordered (so the final answer is sorted). -/
-theorem gnat_leaf_scanR_exact_partial [LinearOrder D] (dist : α → α → D) (removed : List Nat) (q : α) (r : D)
-    (data : List (Elem α)) (nbh : Nbh α D) (hs : nbh.Pairwise (fun a b => b.1 ≤ a.1)) :
-    (scanDataR dist removed q r data nbh).Perm
-        ((((liveOf removed data).filter (fun e => decide (dist q e.val ≤ r))).map
-            (fun e => (dist q e.val, e))) ++ nbh) ∧
-      (scanDataR dist removed q r data nbh).Pairwise (fun a b => b.1 ≤ a.1) :=
-  ⟨scanDataR_perm dist removed q r data nbh, scanDataR_sorted dist removed q r data nbh hs⟩
+/-- **`nearestR` is exact**: sorted by distance and, as a multiset of stored copies, exactly the
+non-removed copies within the radius (none twice, none missing) — for every child order. -/
+theorem nearestR_exact {dist : α → α → D} (hm : IsMetric dist)
+    (g : Gnat α D) (hg : g.WF dist) (q : α) (r : D)
+    {ord : Nat → Nat → List Nat} (hord : ∀ sz off, (ord sz off).Perm (List.range sz)) :
+    IsRNearest (fun e => dist q e.val) r g.list ((g.nearestR dist ord q r).1.map Prod.snd) ∧
+    (∀ x ∈ (g.nearestR dist ord q r).1, x.1 = dist q x.2.val) ∧
+    (g.nearestR dist ord q r).2.2 = false := by
+  have hempty : ∀ l : List (Elem α), l.length = 0 →
+      IsRNearest (fun e => dist q e.val) r l (([] : List (D × Elem α)).map Prod.snd) := by
+    intro l h
+    have : l = [] := List.length_eq_zero_iff.mp h
+    subst this
+    exact ⟨List.Pairwise.nil, by simp⟩
+  unfold Gnat.nearestR Gnat.list
+  unfold Gnat.WF at hg
+  cases ht : g.tree with
+  | none =>
+    simp only [ht] at hg ⊢
+    rw [if_pos hg]
+    exact ⟨hempty _ rfl, by simp, rfl⟩
+  | some t =>
+    simp only [ht] at hg ⊢
+    by_cases hs : g.size = 0
+    · rw [if_pos hs]
+      exact ⟨hempty _ (by rw [← hg.2, hs]), by simp, rfl⟩
+    · rw [if_neg hs]
+      obtain ⟨h1, h2, h3⟩ := nearestRInternal_exact hm g.removed t hg.1 q r hord g.offset
+      refine ⟨h2, ?_, h1⟩
+      intro x hx
+      exact h3 x (List.mem_reverse.mp hx)
 
-example : (scanDataR (fun (a b : Int) => |a - b|) [1] 5 2 [⟨0, 4⟩, ⟨1, 5⟩, ⟨2, 9⟩, ⟨3, 7⟩] []).map (·.2.id) = [3, 0] := by
-  decide
+/-- **`nearest` is exact**: on a non-empty structure it returns a non-removed stored copy at the
+minimum distance (the exception `none` exactly when nothing is held). -/
+theorem nearest_exact [BEq α] [LawfulBEq α] {dist : α → α → D} (hm : IsMetric dist)
+    (hself : ∀ a, dist a a = 0) (g : Gnat α D) (hg : g.WF dist) (q : α) (eps : D)
+    {ord : Nat → Nat → List Nat} (hord : ∀ sz off, (ord sz off).Perm (List.range sz)) :
+    match (g.nearest dist eps ord q).1 with
+    | none => g.list = []
+    | some (d, e) => e ∈ g.list ∧ d = dist q e.val ∧ ∀ y ∈ g.list, d ≤ dist q y.val := by
+  unfold Gnat.nearest Gnat.list
+  unfold Gnat.WF at hg
+  cases ht : g.tree with
+  | none =>
+    simp only [ht] at hg ⊢
+    rw [if_pos hg]
+    trivial
+  | some t =>
+    simp only [ht] at hg ⊢
+    by_cases hs : g.size = 0
+    · rw [if_pos hs]
+      exact List.length_eq_zero_iff.mp (by rw [← hg.2, hs])
+    · rw [if_neg hs]
+      obtain ⟨_, ⟨_, hlen, rest, hperm, hle⟩, h3⟩ :=
+        nearestKInternal_exact hm hself g.removed t hg.1 q 1 eps hord g.offset
+      simp only [postprocess, List.length_map, List.length_reverse] at hlen
+      have hlive : 0 < (liveOf g.removed t.elems).length := by omega
+      generalize (nearestKInternal dist g.removed q 1 eps ord g.offset t).nbh = nbh at *
+      match nbh, hlen with
+      | [x], _ =>
+        obtain ⟨d, e⟩ := x
+        simp only [postprocess, List.reverse_cons, List.reverse_nil, List.nil_append, List.map_cons,
+          List.map_nil, List.cons_append] at hperm hle
+        simp only [List.head?_cons]
+        refine ⟨hperm.subset (by simp), h3 (d, e) (by simp), ?_⟩
+        intro y hy
+        have hd : d = dist q e.val := h3 (d, e) (by simp)
+        rcases List.mem_cons.mp (hperm.symm.subset hy) with rfl | hy
+        · rw [hd]
+        · rw [hd]; exact hle e (by simp) y hy
+      | [], h => simp at h; omega
+      | _ :: _ :: _, h => simp at h; omega
 
 /-! non-vacuity: a dump of a real tree (corpus/C10/smoke-gnat.txt, L1 metric on ℤ²) satisfies the
-invariant, the metric laws hold for |a-b| on ℤ, and the pruning tests do fire. -/
+invariant, `|a-b|` on ℤ is a metric, the theorems apply to the driver's instance, and the model's
+queries on that tree give the expected answers. -/
 
 def l1 (a b : Int × Int) : Int := |a.1 - b.1| + |a.2 - b.2|
+
+theorem l1_metric : IsMetric l1 ∧ ∀ a, l1 a a = 0 := by
+  refine ⟨⟨fun a b => ?_, fun a b c => ?_⟩, fun a => by simp [l1]⟩
+  · simp only [l1]; rw [abs_sub_comm a.1, abs_sub_comm a.2]
+  · simp only [l1]
+    have h1 := abs_sub_le a.1 b.1 c.1
+    have h2 := abs_sub_le a.2 b.2 c.2
+    omega
 
 def sampleTree : Node (Int × Int) Int :=
   .mk ⟨0, (1, 2)⟩ 3 none [none, none, none] []
@@ -174,10 +260,23 @@ def sampleTree : Node (Int × Int) Int :=
       .mk ⟨2, (0, 0)⟩ 2 (some (0, 2)) [some (18, 18), some (0, 2), some (7, 11)] [⟨3, (1, 1)⟩] [],
       .mk ⟨4, (3, 4)⟩ 2 (some (0, 4)) [some (11, 11), some (5, 7), some (0, 4)] [⟨5, (5, 6)⟩, ⟨6, (3, 4)⟩] [] ]
 
-example : sampleTree.inv l1 [6] = true := by decide
+def sampleGnat : Gnat (Int × Int) Int :=
+  { params := ⟨3, 2, 3, 2, 3, false⟩, tree := some sampleTree, size := 6, removed := [6], nextId := 7 }
+
+theorem sampleGnat_wf : sampleGnat.WF l1 := ⟨by decide, by decide⟩
+
+/-- the hypotheses of `nearestK_exact` are satisfiable, and its conclusion pins the answer down:
+3 of the 6 live copies, for both variants' child orders. -/
+example (rotate : Bool) : ((sampleGnat.nearestK l1 1 (childOrder rotate) (4, 4) 3).1.map Prod.snd).length = 3 :=
+  (nearestK_exact l1_metric.1 l1_metric.2 sampleGnat sampleGnat_wf (4, 4) 3 1 (childOrder_perm rotate)).1.2.1
+example (rotate : Bool) : ((sampleGnat.nearestR l1 (childOrder rotate) (0, 0) 3).1.map Prod.snd).Perm
+    [⟨0, (1, 2)⟩, ⟨2, (0, 0)⟩, ⟨3, (1, 1)⟩] :=
+  (nearestR_exact l1_metric.1 sampleGnat sampleGnat_wf (0, 0) 3 (childOrder_perm rotate)).1.2
 example : outside (l1 (0, 0) (9, 9)) (2 : Int) (some (16, 18)) = false := by decide
 example : outside (l1 (0, 0) (0, 0)) (2 : Int) (some (18, 18)) = true := by decide
 example : IsMetric (fun (a b : Int) => |a - b|) :=
   ⟨fun a b => abs_sub_comm a b, fun a b c => abs_sub_le a b c⟩
+
+end Gnat
 
 end OmplModel.NN
